@@ -294,6 +294,8 @@ class Minimal:
         self.name = cmd
 
     def instance(self, rng):
+        if rng.random() < 0.2:      # more pairwise distinguishable states than the length bound can tell apart
+            return {'D': gen.counter_dfa(rng), 'len': rng.choice([3, 4])}
         return {'D': gen.random_dfa(rng, 5, rng.choice([['a', 'b'], ['a']])), 'len': rng.choice([3, 4])}
 
     def own(self, inst, sc):
@@ -308,6 +310,23 @@ class Minimal:
         if A is not None:
             for _ in range(3):
                 out.append(DA.print_dfa(enc.build_dfa(mutate_dfa_spec(rng, enc.dfa_to_spec(A)), check=False)))
+            # too FEW states, same words up to the length bound: one state of the minimal automaton folded into another one
+            sp = enc.dfa_to_spec(A)
+            n, ref, found = inst['len'], lang_of(A, inst['len']), 0
+            pairs = [(p, q) for p in sp['Q'] for q in sp['Q'] if p != q and q != sp['q0']]
+            rng.shuffle(pairs)
+            for p, q in pairs[:30]:
+                m = {'Q': [x for x in sp['Q'] if x != q], 'Sigma': sp['Sigma'], 'q0': sp['q0'], 'F': [x for x in sp['F'] if x != q],
+                     'delta': [[x, a, p if y == q else y] for x, a, y in sp['delta'] if x != q]}
+                try:
+                    B = enc.build_dfa(m, check=False)
+                    if lang_of(B, n) == ref:
+                        out.append(DA.print_dfa(B))
+                        found += 1
+                except Exception:
+                    pass
+                if found >= 2:
+                    break
         return out
 
     def check(self, inst, ans):
